@@ -147,6 +147,10 @@ def gen(rng, tier):
     # ring: closed, evicted, processed again -> reopened after having been reported closed
     pool = [D(0x10, 1, 50)] + [D(0x20, 2, 1000 + 10 * i) for i in range(10)] + [D(0x11, 1, 60)]
     out.append(hist(pool, [(0, 0), (0, 11)] + [(0, i) for i in range(1, 11)] + [(0, 0), (2,)], "ring-eviction"))
+    # the VSS lookup error is raised before the descriptor is stored: the second attempt fails the same way (37, 37)
+    out.append(hist([D(0x40, 5, 1000), D(0x40, 5, 2000)], [(0, 0), (0, 1), (0, 1), (2,)], "vss-twice", "C10_dup_twice_in_row_vss"))
+    out.append(hist([D(0x40, 5, 1000, vss=1), D(0x40, 5, 2000, vss=1), D(0x40, 5, 3000, vss=2), D(0x41, 5, 4000)],
+                    [(0, 0), (0, 1), (0, 1), (0, 2), (0, 2), (0, 3), (2,)], "vss-twice", "C10_dup_twice_in_row_partial"))
     # exactly 10 signal times: nothing is forgotten
     pool = [D(0x17, 1, 1000 + 10 * i) for i in range(10)]
     out.append(hist(pool, [(0, i) for i in range(10)] + [(0, i) for i in range(10)], "ring-full"))
@@ -249,6 +253,16 @@ def case_of_line(line, kind):
 
 def shrink(c):
     pool, script = script_of(c.line)
+    used = sorted({cc[1] for cc in script if cc[0] != 2})
+    if len(used) < len(pool):
+        # drop the descriptors the script does not use and renumber (id = position)
+        ren = {old: new for new, old in enumerate(used)}
+        p2 = []
+        for old in used:
+            d = list(pool[old]); d[0] = ren[old]; p2.append(d)
+        ptok2 = "[ " + " ".join(vlib.fmt_val(d).replace("[", "[ ").replace("]", " ]") for d in p2) + " ]"
+        sc2 = [(cc[0], ren[cc[1]]) if cc[0] != 2 else (2,) for cc in script]
+        yield Case("trk.hist %s [ %s ]" % (ptok2, " ".join(call_tok(cc) for cc in sc2)), kind=c.kind, decides=True, theorem=c.theorem)
     ptok = "[ " + " ".join(vlib.fmt_val(d).replace("[", "[ ").replace("]", " ]") for d in pool) + " ]"
     n = len(script)
     size = max(1, n // 2)
